@@ -382,7 +382,7 @@ func corrC11(r *Run) {
 		}
 		r.Case(fmt.Sprintf("message_state_string %d", b), fmt.Sprintf("beq_obytes (message_state_string %d) (Ok %s)", b, coqHex([]byte(s))))
 	}
-	r.Sample(map[string]interface{}{"accessor": "MessageState.String", "octet": 10, "returned": pdu.MessageState(9).String() + " for 9; 10 is the first value without a name"})
+	r.Sample(map[string]interface{}{"accessor": "MessageState.String", "octet": 10, "note": "the first value without a name: printed as a number"})
 
 	// ---- 2. data_coding: every octet x hostile messages through Parse
 	msgs := [][]byte{{}, {0x41}, {0x1B}, {0x41, 0x1B}, {0xD8, 0x00}, {0xD8, 0x00, 0x41}, {0xFF, 0xFE, 0xFD}, {0x80, 0x81, 0x8F, 0xA0},
@@ -565,6 +565,44 @@ func corrC11(r *Run) {
 			}
 		}
 	}
+	// 6a'. every type with address fields: the values around Address.String's special case (TON 1, NPI 1, number "" / "+" / "+1" / "1")
+	{
+		edge := []pdu.Address{{TON: 1, NPI: 1, No: ""}, {TON: 1, NPI: 1, No: "+"}, {TON: 1, NPI: 1, No: "+1"}, {TON: 1, NPI: 1, No: "1"},
+			{TON: 0, NPI: 1, No: ""}, {TON: 1, NPI: 0, No: ""}, {TON: 0, NPI: 0, No: "1"}}
+		for _, t := range ts {
+			for k := 0; k < len(edge); k++ {
+				p := genPDU(r.Rng, t, modeDomain)
+				pv := reflect.ValueOf(p).Elem()
+				touched := false
+				for i := 0; i < pv.NumField(); i++ {
+					switch pv.Field(i).Interface().(type) {
+					case pdu.Address:
+						pv.Field(i).Set(reflect.ValueOf(edge[(k+i)%len(edge)]))
+						touched = true
+					case pdu.DestinationAddresses:
+						pv.Field(i).Set(reflect.ValueOf(pdu.DestinationAddresses{Addresses: append([]pdu.Address(nil), edge[k:]...), DistributionList: []string{"", "x"}}))
+						touched = true
+					case pdu.UnsuccessfulRecords:
+						var u pdu.UnsuccessfulRecords
+						for _, a := range edge[k:] {
+							u = append(u, pdu.UnsuccessfulRecord{DestAddr: a, ErrorStatusCode: pdu.CommandStatus(k)})
+						}
+						pv.Field(i).Set(reflect.ValueOf(u))
+						touched = true
+					}
+				}
+				if !touched {
+					break
+				}
+				pdu.WriteSequence(p, int32(k+1))
+				var buf bytes.Buffer
+				if _, err := pdu.Marshal(&buf, p); err == nil {
+					c11Frame(r, buf.Bytes(), "address edge values", true, &delivered)
+				}
+			}
+		}
+	}
+	flush("combiner on decoded deliver_sm (address edge values)")
 	// 6b. every registered id: arbitrary body octets behind a valid header
 	perType := r.N(60, 700)
 	for _, t := range ts {
